@@ -216,6 +216,8 @@ def direct(prop, ops):
                             mentions = True
                     if mentions:
                         out.append(Finding(prop, i, sig(i, "handler-survived-removal"), f"handler {name} mentions {k} and is still registered after `{op}`"))
+    if prop == "C14":
+        out += cascade_oracle(prop, ops, sig)
     if prop == "C20":
         for i, (op, obs) in enumerate(ops):
             for l in obs:
@@ -358,6 +360,105 @@ def delivery_oracle(prop, ops, sig):
         if got != exp and not (took and got == exp[:len(got)] and got):
             out.append(Finding(prop, i, sig(i, "delivery-oracle"),
                                f"`{op}`: handlers run {got}, receiver queries on the target's components select {exp}"))
+    return out
+
+
+OBSERVER_ACTS = ("iter", "bump", "get", "getmany", "recv", "ents", "alloc")
+STATS = {"cascade_removals": 0, "cascade_decided": 0, "cascade_decided_with_despawn_handlers": 0}
+
+
+def cascade_oracle(prop, ops, sig):
+    """C14, the order of the cascade: announcement, then the Despawn events of exactly the entities that have the
+    component (each reaching the Despawn handlers whose receiver query matches it, in priority/addition order), and only
+    then handler and event removal.  Decided only for removals during which nothing but observers can run (every live
+    handler receiving RemoveComponent / Despawn / RemoveHandler / RemoveTargetedEvent has a body that only looks), so that
+    the state at each phase is known from the `st` and `reg` lines before the operation."""
+    out = []
+    specs = oracle.handler_specs(ops)
+    order = {"h": 0, "m": 1, "l": 2}
+    for i, (op, obs) in enumerate(ops):
+        if i == 0 or not op.startswith("rmc ") or "ret some" not in obs:
+            continue
+        STATS["cascade_removals"] += 1
+        if any(l.startswith(("panic", "exit")) for l in obs) or any("?" in l for l in obs if l.startswith("t ")):
+            continue
+        k = op.split(" ")[1]
+        prev = ops[i - 1][1]
+        st, reg = lines_of(prev, "st "), lines_of(prev, "reg ")
+        if not st or not reg or "?" in st[0]:
+            continue
+        m = re.match(r"reg c:(\S*) e:(\S*) h:(\S*) stale=", reg[0])
+        if not m:
+            continue
+        try:
+            store = oracle.parse_store(st[0])
+        except Exception:
+            continue
+        live = [x.split("=")[0] for x in m.group(3).split(",") if "=" in x]
+        runners = {}
+        ok = True
+        for name in live:
+            if name.startswith("fn"):
+                continue                      # the function handlers receive G0 / G1 / T0 only
+            sp = specs.get(name)
+            if sp is None:
+                ok = False
+                break
+            rs = [p for p in sp["params"] if p[0] == "R"]
+            if not rs:
+                ok = False
+                break
+            if rs[0][1] in ("RemC", "Despawn", "RemH", "RemT"):
+                f = dict(t.split("=", 1) for t in ops[sp["index"]][0].split(" ")[1:] if "=" in t)
+                acts = [a.split(":")[0] for a in f.get("body", "").split(",") if a]
+                if any(a not in OBSERVER_ACTS for a in acts):
+                    ok = False
+                    break
+                runners[name] = (rs[0][1], rs, sp)
+        if not ok:
+            continue
+        heads = [(n, l) for n, l in enumerate(obs) if l.startswith("t h ")]
+        # phase order
+        first_rm = min([n for n, l in heads if re.match(r"t h \S+ Rem[HT]\(", l)], default=None)
+        last_desp = max([n for n, l in heads if re.match(r"t h \S+ Despawn@", l)], default=None)
+        last_remc = max([n for n, l in heads if re.match(r"t h \S+ RemC\(", l)], default=None)
+        first_desp = min([n for n, l in heads if re.match(r"t h \S+ Despawn@", l)], default=None)
+        if first_rm is not None and last_desp is not None and first_rm < last_desp:
+            out.append(Finding(prop, i, sig(i, "cascade-order"), f"`{op}`: a handler/event removal was announced before the last Despawn of the cascade was delivered: {obs[first_rm]} … {obs[last_desp]}"))
+        if last_remc is not None and first_desp is not None and first_desp < last_remc:
+            out.append(Finding(prop, i, sig(i, "cascade-order"), f"`{op}`: a Despawn of the cascade was delivered before the announcement finished: {obs[first_desp]} … {obs[last_remc]}"))
+        # who gets their say
+        got = {}
+        for n, l in heads:
+            mm = re.match(r"t h (\S+) Despawn@(#\d+)$", l)
+            if mm:
+                got.setdefault(mm.group(2), []).append(mm.group(1))
+        exp = {}
+        bad = False
+        for ent, vals in store.items():
+            S = set(vals.keys())
+            if int(k[1:]) not in S:
+                continue
+            cands = []
+            for name, (ev, rs, sp) in runners.items():
+                if ev != "Despawn":
+                    continue
+                try:
+                    if all(oracle.sem(oracle.parse(p[3] if len(p) > 3 else "()"), S) for p in rs):
+                        cands.append((order[sp["prio"]], sp["index"], name))
+                except Exception:
+                    bad = True
+            exp[ent] = [n for _, _, n in sorted(cands)]
+        if bad:
+            continue
+        STATS["cascade_decided"] += 1
+        if any(exp.values()):
+            STATS["cascade_decided_with_despawn_handlers"] += 1
+        for ent in sorted(set(got) | set(exp)):
+            if got.get(ent, []) != exp.get(ent, []):
+                out.append(Finding(prop, i, sig(i, "cascade-despawn-say"),
+                                   f"`{op}`: Despawn of {ent} reached {got.get(ent, [])}, but the entities holding {k} and the "
+                                   f"receiver queries select {exp.get(ent, []) if ent in exp else 'no Despawn at all'}"))
     return out
 
 
